@@ -223,8 +223,10 @@ func (self *CallStm) format(printer *printer, prefix string) {
 		len(self.Modifiers.Bindings.List) > 0 ||
 		self.Modifiers.Local || self.Modifiers.Preflight || self.Modifiers.Volatile) {
 		if self.Modifiers.Bindings == nil {
+			// Only the location: the comments attached to the call must
+			// not be repeated for the synthesized bindings.
 			self.Modifiers.Bindings = &BindStms{
-				Node: self.Node,
+				Node: AstNode{Loc: self.Node.Loc},
 			}
 		}
 		printer.mustWriteString(") using (\n")
